@@ -199,4 +199,33 @@ BoolOK(op, t, n, a, b, r) ==
 BoolWith(op, t, n, a, b, r) ==
   /\ BoolOK(op, t, n, a, b, r)
   /\ breg' = r /\ last' = <<op, t>> /\ UNCHANGED reg
+
+\* ---- compile-time constants (C19): a constant denotes a lane vector; n lanes of type t --------------------------------------
+\* generator functors of the harness grammar: lane i = G(i, n)
+GenVal(g, i, n, pa, pb) == CASE g = "iota" -> i * pa + pb [] g = "rev" -> (n - 1 - i) * pa + pb [] g = "mod" -> (i * pa + pb) % n [] g = "par" -> (i % 2) * pa + pb
+BGenVal(g, i, k) == CASE g = "lt" -> B2I(i < k) [] g = "mod" -> B2I(i % k = 0)
+Rep3(x) == x \o x \o x
+ConstOK(ck, op, t, n, va, vb, g, r) ==
+  LET nb == TypeTab[t].nb  S == TypeTab[t].S  w == n * nb IN
+  CASE ck = "const"  -> r = Rep3(SubSeq(va, 1, w))                                          \* as_batch, get(i), implicit conversion
+    [] ck = "bconst" -> LET bits == SubSeq(va, 1, n) IN
+                        r = Rep3(bits) \o (IF n <= 32 THEN SubSeq(MaskVal(bits), 1, 4) ELSE <<0, 0, 0, 0>>)      \* ..., mask()
+    [] ck = "gen"    -> \A i \in 0 .. n - 1 : Lane(r, t, i) = Fix(FromInt(GenVal(op, i, n, g[1], g[2])), nb)
+    [] ck = "bgen"   -> \A i \in 0 .. n - 1 : r[i + 1] = BGenVal(op, i, g[1])
+    [] ck = "op2"    -> \A i \in 0 .. n - 1 :
+                          LET x == Lane(va, t, i)  y == Lane(vb, t, i)  z == Lane(r, t, i) IN
+                          CASE op = "/" -> VDivDefined(S, x, y) => z = VDiv(S, x, y)
+                            [] op = "%" -> VDivDefined(S, x, y) => z = VRem(S, x, y)
+                            [] OTHER -> IntRel(CASE op = "+" -> "add" [] op = "-" -> "sub" [] op = "*" -> "mul" [] op = "&" -> "and" [] op = "|" -> "or" [] op = "^" -> "xor",
+                                               S, x, y, x, FALSE, 0, z)
+    [] ck = "op1"    -> \A i \in 0 .. n - 1 : Lane(r, t, i) = (IF op = "-" THEN VNeg(Lane(va, t, i)) ELSE VNot(Lane(va, t, i)))
+    [] ck = "bop2"   -> LET p == SubSeq(va, 1, n)  q == SubSeq(vb, 1, n) IN
+                        r = (CASE op \in {"&", "&&"} -> MAnd(p, q) [] op \in {"|", "||"} -> MOr(p, q) [] op = "^" -> MXor(p, q))
+    [] ck = "bop1"   -> r = MNot(SubSeq(va, 1, n))
+    \* an API taking a constant returns what the run-time form returns for the converted batch - and both follow the operation's meaning
+    [] ck = "sel"    -> LET ex == Flat([i \in 1 .. n |-> IF g[i] = 1 THEN Lane(va, t, i - 1) ELSE Lane(vb, t, i - 1)], 1) IN r = ex \o ex
+    [] ck = "swz"    -> LET ex == Flat(Swizzle(RegSeq(va, t, n), g), 1) IN r = ex \o ex
+    [] OTHER -> FALSE
+ConstWith(ck, op, t, n, va, vb, g, r) == ConstOK(ck, op, t, n, va, vb, g, r) /\ reg' = [reg EXCEPT ![0] = r] /\ last' = <<ck, op, t>> /\ UNCHANGED breg
+
 =============================================================================
